@@ -1,9 +1,9 @@
 (** C12 — Partial dates, times and date-times round-trip through text, report their
     byte length, and bound the instants they denote; range texts [A-B].
-    Statements only; proofs are in Proofs/DateTime{P,TP,CalP,RangeP,CtorP}.v.
+    Statements only; proofs are in Proofs/DateTime{P,TP,CalP,RangeP,CtorP,TotalP}.v.
     Text = list of bytes; instants = microseconds ([Z]); all values, all precisions. *)
 From DicomV Require Import Base.Prelude Model.DateTime.
-From DicomV Require Import Proofs.DateTimeP Proofs.DateTimeTP Proofs.DateTimeCalP Proofs.DateTimeRangeP Proofs.DateTimeCtorP.
+From DicomV Require Import Proofs.DateTimeP Proofs.DateTimeTP Proofs.DateTimeCalP Proofs.DateTimeRangeP Proofs.DateTimeCtorP Proofs.DateTimeTotalP.
 Local Open Scope N_scope.
 
 (** ** 1. Text round trip: [parse (to_encoded v) = Ok (v, "")] *)
@@ -163,6 +163,40 @@ Theorem C12_datetime_range_ambiguous :
   /\ (a, b) <> (a', b').
 Proof. exact dt_range_text_ambiguous. Qed.
 
+(** ** 5. Totality: no parser panics, whatever the bytes (any byte values, any length).
+    Every operation of the Rust code that can panic on some input is an explicit [Panic] of the
+    model: overflow of read_number's digit fold in its target type (u8/u16/u32/i32), the
+    [u8::try_from(n).unwrap()] of the fraction length, the u32 products [fraction * 10^(6-fp)]
+    (from_hmsf, earliest, latest, parse_time's padding loop) and [6 - fp]; slices are taken only
+    behind the length tests the model repeats. None is reachable. *)
+Theorem C12_parse_total : forall (s : bytes) (w : N),
+  parse_date_partial s <> Panic w /\ parse_time_partial s <> Panic w
+  /\ parse_datetime_partial s <> Panic w
+  /\ parse_date s <> Panic w /\ parse_time s <> Panic w
+  /\ parse_date_range s <> Panic w /\ parse_time_range s <> Panic w
+  /\ (forall mode, parse_datetime_range mode s <> Panic w).
+Proof.
+  intros s w. repeat split.
+  - apply parse_date_partial_np. - apply parse_time_partial_np. - apply parse_datetime_partial_np.
+  - apply parse_date_np. - apply parse_time_np.
+  - apply parse_date_range_np. - apply parse_time_range_np.
+  - intros mode. apply parse_datetime_range_np.
+Qed.
+
+(** ... and earliest / latest of whatever the parsers return cannot panic either *)
+Theorem C12_bounds_total : forall (s : bytes) (w : N),
+  (forall d, date_earliest d <> Panic w /\ date_latest d <> Panic w)
+  /\ (forall t r, parse_time_partial s = Ok (t, r) -> time_earliest t <> Panic w /\ time_latest t <> Panic w)
+  /\ (forall v, parse_datetime_partial s = Ok v -> dt_earliest v <> Panic w /\ dt_latest v <> Panic w).
+Proof.
+  intros s w. repeat split.
+  - apply date_earliest_np. - apply date_latest_np.
+  - apply time_earliest_np. eapply parsed_time_valid; eassumption.
+  - apply time_latest_np. eapply parsed_time_valid; eassumption.
+  - eapply dt_bounds_of_parsed_np; eassumption.
+  - eapply dt_bounds_of_parsed_np; eassumption.
+Qed.
+
 (** Non-vacuity: a leap-second time with six fraction digits and a zoned, fractional date-time
     on a leap day are valid; the latter has bounds. *)
 Example C12_nonvacuous :
@@ -207,6 +241,13 @@ Check C12_datetime_range_outside_known : forall mode a b,
   parse_datetime_range mode (dt_enc a ++ dash :: dt_enc b)
   = (lo <- dt_earliest a;; hi <- dt_latest b;; combine mode lo hi).
 
+Check C12_parse_total : forall (s : bytes) (w : N),
+  parse_date_partial s <> Panic w /\ parse_time_partial s <> Panic w
+  /\ parse_datetime_partial s <> Panic w
+  /\ parse_date s <> Panic w /\ parse_time s <> Panic w
+  /\ parse_date_range s <> Panic w /\ parse_time_range s <> Panic w
+  /\ (forall mode, parse_datetime_range mode s <> Panic w).
+
 Print Assumptions C12_date_rt.
 Print Assumptions C12_time_rt.
 Print Assumptions C12_datetime_rt.
@@ -229,3 +270,5 @@ Print Assumptions C12_datetime_range_outside_known.
 Print Assumptions C12_datetime_range_open.
 Print Assumptions C12_range_interval.
 Print Assumptions C12_datetime_range_ambiguous.
+Print Assumptions C12_parse_total.
+Print Assumptions C12_bounds_total.
